@@ -13,7 +13,7 @@ func init() {
 	register(&Property{
 		ID:        "C14",
 		Technique: "static analysis: ORDER/FOLLOW rules on the backup request, the checkpoint worker and the restore path; who-may-call enumeration; guard implication by truth table on the purge decision; argument provenance on canonical terms",
-		Explanation: "Decides: (B1) pending in-memory caches are flushed before the checkpoint is requested; (B2) the checkpoint is started inside the apply loop: beginSnapshot asks for it outside its goroutine and is called only from maybeTriggerSnapshot <- applyCommits, GetSnapshot returns only after the checkpoint was started (WaitReady), the result is read only after completion (GetResult waits for done and nothing else), the worker signals started from the engine checkpoint and closes done on every exit; (B3) copying into place never truncates an existing (possibly hard-linked) destination: it is unlinked before it is created; the restore removes and creates files in the data directory only; (B4) a checkpoint is purged only when its index is below the latest snapshot index, which is read from the atomically updated field; (B5) restore closes the engine before touching files and re-opens it after the copies; a kept sst file was verified identical; reopening re-creates the HLL cache, the index manager and the default write batch instead of keeping those bound to the replaced engine; (B2, engines) the mem engine notifies started only after its iterator pinned the view and saves through that iterator; the pebble wrapper notifies only after Checkpoint returned (pebble copies its WAL whole at the end); the rocksdb wrapper arms its notification only under the engine lock; (B4) nothing purges checkpoints inside a restore before the engine is reopened.",
+		Explanation: "Decides: (B1) pending in-memory caches are flushed before the checkpoint is requested; (B2) the checkpoint is started inside the apply loop: beginSnapshot asks for it outside its goroutine and is called only from maybeTriggerSnapshot <- applyCommits, GetSnapshot returns only after the checkpoint was started (WaitReady), the result is read only after completion (GetResult waits for done and nothing else), the worker signals started from the engine checkpoint and closes done on every exit; (B3) copying into place never truncates an existing (possibly hard-linked) destination: it is unlinked before it is created; the restore removes and creates files in the data directory only; (B4) a checkpoint is purged only when its index is below the latest snapshot index, which is read from the atomically updated field; (B5) restore closes the engine before touching files and re-opens it after the copies; a kept sst file was verified identical; reopening re-creates the HLL cache, the index manager and the default write batch instead of keeping those bound to the replaced engine; (B2, engines) the mem engine notifies started only after its iterator pinned the view and saves through that iterator; the pebble wrapper notifies only after Checkpoint returned (pebble copies its WAL whole at the end); the rocksdb wrapper arms its notification only under the engine lock; (B4) nothing purges checkpoints inside a restore before the engine is reopened. (B1, write-back) every command that modifies a cached HyperLogLog sketch registers that sketch in the dirty cache before it returns success, the dirty cache is the one Flush purges, and its eviction callback is the write to the engine.",
 		NotDecided: "the rocksdb checkpoint notifies \"started\" from a 20 ms timer because rocksdb does not report when its view is pinned (it is fixed when CreateCheckpoint lists the live files, at its start): whether 20 ms suffices is a timing question no static rule decides (stated in DESIGN.md); equality of the restored data with the state at index i (engine behaviour), rsync, repeated/interleaved backups' timing, that the HLL cache flush is complete (cache internals).",
 		Assumptions: []string{"path conditions as in C01"},
 		Run: runC14,
@@ -31,6 +31,7 @@ func runC14(c *Ctx) {
 		r.Order("C14-B1", u, an.Send("recv.backupC"), []an.M{an.Call("rockredis.(*hllCache).Flush")}, an.OrderOpts{Min: 1})
 		r.StoreValues("C14-B1", u, an.LocalStore("fname"), []string{"rockredis.GetCheckpointDir(p0, p1)"}, 1)
 	}
+	hllWriteBack(c, "C14-B1")
 	// B2
 	if u := c.unit("C14-B2", "node.(*kvStoreSM).GetSnapshot"); u != nil {
 		ok := an.Return().Where("success", func(u *an.Unit, s *an.Site) bool { return !an.ErrorReturn(u, s) })
@@ -231,4 +232,52 @@ func defTermOf(u *an.Unit, s *flow.Site) string {
 		}
 	}
 	return u.C.Term(s.RHS)
+}
+
+// hllWriteBack: HyperLogLog sketches are modified in a cache and reach the engine only when the *dirty* cache is
+// flushed (Backup) or evicts. The flush-before-checkpoint rule (B1) is only worth something if every modified sketch
+// is registered in that dirty cache before the command returns. Reported under C14-B1 and C06-S6.
+func hllWriteBack(c *Ctx, rule string) {
+	r := c.R
+	n := 0
+	for _, cs := range c.W.AllSites(an.Call("rockredis.(*hllCacheItem).addCount"), "addCount", []string{"rockredis"}) {
+		u := cs.U
+		n++
+		add := cs.S
+		changedRet := an.Return().Where("after the sketch may have changed", func(u *an.Unit, s *flow.Site) bool {
+			if s.Pos < add.Pos {
+				return false
+			}
+			return !flow.Implies(u.SitePC(s), c.W.Parse("!changed")).Holds && !an.ErrorReturn(u, s)
+		})
+		r.Order(rule, u, changedRet, []an.M{an.Call("rockredis.(*hllCache).AddDirtyWrite")}, an.OrderOpts{Min: 1})
+		for _, s := range u.Match(an.Call("rockredis.(*hllCache).AddDirtyWrite")) {
+			recvOf := ""
+			if sel, ok := add.Call.Fun.(*ast.SelectorExpr); ok {
+				recvOf = u.C.Term(sel.X)
+			}
+			r.Check(rule, u.Name+": the sketch registered as dirty is the one that was modified, under the command's key", u.Pos(s.Pos),
+				u.ArgTerm(s, 1) == recvOf && u.ArgTerm(s, 0) == "p1", "registered "+u.ArgTerm(s, 1)+" under "+u.ArgTerm(s, 0))
+		}
+	}
+	r.Min(rule, n, 1, "functions that modify a cached HLL sketch")
+	if u := c.unit(rule, "rockredis.(*hllCache).AddDirtyWrite"); u != nil {
+		ad := u.Match(an.Call("github.com/hashicorp/golang-lru.(*Cache).Add"))
+		ok := len(ad) == 1 && strings.HasPrefix(u.C.Term(ad[0].Call.Fun), "recv.dirtyWriteCache")
+		r.Check(rule, u.Name+": registers in the dirty cache (the one Flush purges)", "", ok, "")
+	}
+	if u := c.unit(rule, "rockredis.(*hllCache).Flush"); u != nil {
+		pg := u.Match(an.Call("github.com/hashicorp/golang-lru.(*Cache).Purge"))
+		ok := len(pg) == 1 && strings.HasPrefix(u.C.Term(pg[0].Call.Fun), "recv.dirtyWriteCache")
+		r.Check(rule, u.Name+": purges the dirty cache (eviction writes each dirty sketch to the engine)", "", ok, "")
+	}
+	if u := c.unit(rule, "rockredis.newHLLCache"); u != nil {
+		ok := false
+		for _, s := range u.Sites {
+			if s.Kind == flow.SStore && s.Tuple != nil && strings.HasPrefix(u.C.Term(s.LHS), "c.dirtyWriteCache") && strings.Contains(u.C.Term(s.Tuple), "c.onEvicted") {
+				ok = true
+			}
+		}
+		r.Check(rule, u.Name+": the dirty cache evicts through onEvicted (the write to the engine)", "", ok, "")
+	}
 }
